@@ -108,7 +108,7 @@ func indent(s, pre string) string {
 func printResult(res *harnessResult, verbose bool) {
 	fmt.Printf("%s: paths=%d %v dec=%d obl=%d (concrete %d) discharged=%d cand=%d undis=%d steps=%d queries=%d (sat %d unsat %d unk %d err %d, %.2fs) modelhits=%d wall=%.2fs budgetHit=%v\n",
 		res.Name, res.Paths, res.Status, res.Decisions, res.Obligations, res.Trivial, res.Discharged, res.Candidates, res.Undischarged, res.Steps,
-		res.Solver.Queries, res.Solver.Sat, res.Solver.Unsat, res.Solver.Unknown, res.Solver.Errors, res.Solver.Seconds, res.ModelHits, res.Seconds, res.BudgetHit)
+		res.Solver.Queries, res.Solver.Sat, res.Solver.Unsat, res.Solver.Unknown, res.Solver.Errors, res.Solver.Seconds, res.ModelHits+res.IntervalHits, res.Seconds, res.BudgetHit)
 	for k, n := range res.Unsupported {
 		fmt.Printf("    unsupported x%d: %s\n", n, k)
 	}
